@@ -169,7 +169,7 @@ def mc_phase(pid, P, tier, workdir, evidence):
 
 def validate_shard(args):
     P, shard, workdir = args
-    tag = "tr_" + os.path.basename(shard).replace(".ndjson", "")
+    tag = "tr_" + os.path.basename(os.path.dirname(shard)) + "_" + os.path.basename(shard).replace(".ndjson", "")
     rc, out = run_tlc(P["trace"], P["trace"] + ".cfg", workdir, tag, env_extra={"TRACE": shard}, workers=1,
                       xmx=P.get("trace_xmx", "2g"), timeout=P.get("trace_timeout", 1700), dfs=True)
     verdicts, drifts, stats = [], [], []
